@@ -225,7 +225,24 @@ def decode_order_rule(ctx, prog, an, rule, decoder_path, label):
     for src, sbb in zip(srcs, src_bodies):
         if src[0] == "call" and src[2] is not None and src[2].npath.endswith("<impl [T]>::iter"):
             inner = lift_arg(sbb, src[3][0])
-            isf = (inner[0] == "field" and inner[2] == "fields") or (inner[0] == "call" and inner[2] is not None and inner[2].nsyn.endswith("CommonTemplate::get_fields"))
+
+            def is_fields(x):
+                x = peel(x)
+                return (x[0] == "field" and x[2] == "fields") or (x[0] == "call" and x[2] is not None and x[2].nsyn.startswith("variable_versions::ipfix::CommonTemplate::"))
+            isf = is_fields(inner)
+            if not isf and inner[0] == "arg":
+                # the records parser receives the field list itself (`&[TemplateField]`): every caller must pass the
+                # fields of a (cached) template — looked at with closure captures and private helpers resolved
+                outs = []
+                for cb in prog.bodies.values():
+                    for cblk, ct, cc in cb.calls():
+                        if cc is not None and cc.local and cc.path == sbb.path and inner[1] - 1 < len(ct["args"]):
+                            ex = an.op(cb, ct["args"][inner[1] - 1])
+                            if cb.kind == "Closure":
+                                _, ex = an.lift(cb, ex)
+                            ex = an.expand(ex)
+                            outs.append(bool(find(ex, lambda n: is_fields(n) if n[0] in ("field", "call") else False)))
+                isf = bool(outs) and all(outs)
             oks = oks or isf
             why = "enumerate source = %s" % canon(src)[:140]
     ctx.ob(rule, decoder_path, "iterates-template-fields", oks, why)
